@@ -465,6 +465,7 @@ func (w *worker) exec(c *mc.Ctx, cs Case) {
 			_ = err
 			return // nothing was sent (the client refused the request): dropping is allowed
 		}
+		c.Distinct("outcomes", fmt.Sprintf("request|%d lines", bytes.Count(sc.Out, []byte("\r\n"))))
 		if why := judgeMessage(sc.Out, "POST /p HTTP/1.1", allowed, e.chunk); why != "" {
 			fail(why, sc.Out)
 		}
@@ -488,6 +489,7 @@ func (w *worker) exec(c *mc.Ctx, cs Case) {
 	if strings.HasPrefix(e.name, "RequestContext.Redirect") {
 		start = "HTTP/1.1 302 Found"
 	}
+	c.Distinct("outcomes", fmt.Sprintf("response|%d lines", bytes.Count(res.Out, []byte("\r\n"))))
 	if why := judgeMessage(res.Out, start, w.got, e.chunk); why != "" {
 		fail(why, res.Out)
 	}
